@@ -174,6 +174,43 @@ fn all_entries(input: &[u8], path: &[PathElem]) -> Option<String> {
         let b = bytes::Bytes::copy_from_slice(input);
         let _ = sonic_rs::get_from_bytes(&b, entry::to_pointer(path).iter()).map(|l| l.as_raw_str().len());
     }));
+    note("typed targets: errors quoting the input are built and displayed", guarded(|| {
+        #[derive(serde::Deserialize, Debug)]
+        #[allow(dead_code)]
+        enum E1 {
+            A,
+            B(u8),
+        }
+        #[derive(serde::Deserialize, Debug)]
+        #[allow(dead_code)]
+        #[serde(deny_unknown_fields)]
+        struct S1 {
+            a: Option<u8>,
+        }
+        fn show<T: std::fmt::Debug>(r: Result<T, sonic_rs::Error>) {
+            match r {
+                Ok(v) => {
+                    let _ = format!("{v:?}");
+                }
+                Err(e) => {
+                    let _ = format!("{e} {e:?} {} {}", e.line(), e.column());
+                }
+            }
+        }
+        show(sonic_rs::from_slice::<u32>(input));
+        show(sonic_rs::from_slice::<bool>(input));
+        show(sonic_rs::from_slice::<char>(input));
+        show(sonic_rs::from_slice::<Vec<u8>>(input));
+        show(sonic_rs::from_slice::<E1>(input));
+        show(sonic_rs::from_slice::<S1>(input));
+        show(sonic_rs::from_slice::<std::collections::BTreeMap<u8, bool>>(input));
+        show(sonic_rs::from_slice::<(i8, String)>(input));
+        if let Ok(v) = sonic_rs::from_slice::<Value>(input) {
+            show(sonic_rs::from_value::<u32>(&v));
+            show(sonic_rs::from_value::<E1>(&v));
+            show(sonic_rs::from_value::<S1>(&v));
+        }
+    }));
     note("get_by_schema", guarded(|| {
         let _ = sonic_rs::get_by_schema(input, sonic_rs::json!({"a": {}, "b": [], "k": {"x": 1}}));
     }));
@@ -217,6 +254,13 @@ pub fn run(out: &mut Out, tier: &str, seed: u64) {
             None => "true".into(),
         };
         out.case("expect", &["every safe entry point returns and releases what it allocated", &hex(&input)], &verdict, input.len() > 2);
+    }
+    // strings that end up quoted inside error messages, as a whole document and as a member name / variant name
+    for t in [" at line 3", " at line \u{663}", " at line 1 column \u{b2}", "x at line \u{ff13} column \u{ff11}", " at line 12 column 7", " at line ", " at line 1 column "] {
+        for doc in [format!("\"{t}\""), format!("{{\"{t}\":1}}"), format!("[\"{t}\"]"), format!("{{\"a\":\"{t}\"}}")] {
+            let r = all_entries(doc.as_bytes(), &[PathElem::Key("a".into())]);
+            out.case("expect", &["text that mimics an error position suffix", &hex(doc.as_bytes())], &r.map(|p| format!("panic: {p}")).unwrap_or("true".into()), true);
+        }
     }
     // very long number literals (beyond every digit buffer of the slow paths), near midpoints of
     // adjacent doubles so that the decimal fallback is taken, in every position of a document
